@@ -275,8 +275,12 @@ func PKCS7Padding(ciphertext []byte, blocksize int) []byte {
 }
 
 func (ble *BleStruct) getDeviceConfig(bluezAddr string) DeviceConfig {
+	addr := bluezAddrBytes(bluezAddr)
+	if addr == nil {
+		return nil
+	}
 	for _, d := range ble.cfg.Devices() {
-		if bytes.Equal(d.MacAddress(), bluezAddrBytes(bluezAddr)) {
+		if bytes.Equal(d.MacAddress(), addr) {
 			return d
 		}
 	}
@@ -289,6 +293,7 @@ func bluezAddrBytes(i string) []byte {
 	b, err := hex.DecodeString(strings.ReplaceAll(i, ":", ""))
 	if err != nil {
 		log.Printf("cannot decode %s, got: %s", i, err)
+		return nil
 	}
 	return b
 }
